@@ -74,7 +74,9 @@ Verdict(c) ==
     LET a == c.axis
         s == c.pre.ax[a]
         t == c.post.ax[a]
-    IN IF c.err # "none" THEN <<"exception-on-valid-arguments", "", "">>
+    IN IF c.op = "alias" THEN (IF c.post = c.pre THEN <<"ok", "", "">>
+                               ELSE <<"earlier-object-changed-by-an-operation-on-an-object-derived-from-it", "", "">>)
+       ELSE IF c.err # "none" THEN <<"exception-on-valid-arguments", "", "">>
        ELSE IF ~c.post.ok.square THEN <<"square-axes-disagree", "", "">>
        ELSE IF ~c.post.ok.cells THEN <<"data-cells-not-those-of-the-entity", "", "">>
        ELSE IF c.op \in {"select", "reorder", "delete", "insert", "adjoin", "concat", "ungroup"} /\ t # Expected(c, s)
